@@ -1,0 +1,12 @@
+//go:build verif
+
+package either
+
+// Contracts for package either, checked by /verif/govc.  Comment-only file.
+
+//@ func FlatMap(opt, fn) result
+//@   prop C01 C02
+//@   ensures opt.IsRight() ==> Eq(result, fn(opt.Get())) && Calls(1)
+//@   ensures !opt.IsRight() ==> Eq(result, fp.Left[L, R1](opt.Left())) && NoCalls()
+//
+//@ include internal/verifspec/monad.contracts MO=fp.Either[L, TP=L, TPU=L, PURE=Pure[L] X=[L]
